@@ -484,8 +484,14 @@ def _ext(fa, nm, e, args, kw, env):
         return V(('ITER', src_of(args[1]) if len(args) > 1 else '?', 'D', VTOP))
     if nm in ('itertools.cycle', 'itertools.repeat', 'itertools.count'):
         return V(('ITER', '?', 'H', elements_of(a0) if (a0 and nm.endswith('cycle')) else (a0 or VINT)))
-    if nm == 'itertools.product':
-        return V(('ITER', src_of(a0) if a0 else '?', 'D', V(fresh('tuple', fa.site(e), VTOP))))
+    if nm in ('itertools.product', 'itertools.permutations', 'itertools.combinations',
+              'itertools.combinations_with_replacement'):
+        # these read every input completely (into tuples) before the first result is produced
+        el = set()
+        for x, xn in zip(args, e.args):
+            _consume(fa, nm, e, xn, x, env, kw)
+            el |= elements_of(x)
+        return V(('ITER', 'local:product', 'D', V(fresh('tuple', fa.site(e), depth_trunc(frozenset(el), 2) or VTOP))))
     if nm == 'heapq.merge':
         fa.emit('sortcall', e, {'how': 'heapq.merge', 'key': kw.get('key'), 'arg': a0, 'args': args})
         el = set()
